@@ -196,8 +196,19 @@ def r3_siblings(ctx, F):
     ctx.info["distinct_sibling_pairs"] = n
 
 
+def r4_slices(ctx, F):
+    """sequence equality compares lengths before zipping (zip truncates silently)"""
+    from rules.C16 import zip_guarded
+    f = F.one(r"starlark::values::comparison::equals_slice$")
+    zs = [c for c in f.calls if re.search(r"Iterator::zip$|iter::zip$", c.name) and c.bb not in f.cleanup]
+    ctx.check(bool(zs) and all(zip_guarded(F, f, c) for c in zs), "C09.R4", "equals_slice:length-guard",
+              "element-wise comparison is guarded by an equality test of the two lengths",
+              "equals_slice zips without comparing lengths: a sequence equals its own prefix", fn=f)
+
+
 def run(ctx):
     F = ctx.facts("core")
+    r4_slices(ctx, F)
     r1_numeric(ctx, F)
     r2_unchecked(ctx, F)
     r3_siblings(ctx, F)
